@@ -10,12 +10,13 @@ RULE = ("(a) case = info set = (subset of <= I of 7 identities incl. empty lang/
         "de-duplicated features); repeating a feature must not change the hash; different info sets must not collide. (b) for every "
         "subset of six feature-bearing managers (64) x name/node/form variants the client logs in over loopback TCP; the <c ver/> of the "
         "initial presence and of setClientPresence() is compared with the independent hash of the client's own disco#info replies "
-        "(node#ver and bare). non-trivial = info sets with >= 2 elements and every (b) comparison")
+        "(node#ver and bare); then the capabilities change at run time (a manager is added or the software-info form replaced) and a COPY "
+        "of the stored presence is re-announced: its <c ver/> must have changed and match the new disco#info reply. non-trivial = info sets with >= 2 elements and every (b) comparison")
 ASSUME = ["one extension form per info set (the class holds a single form)", "alphabet values stand for their lexical classes (ASCII, upper case, BMP above the surrogates, astral)"]
 
 
 def run(tier):
-    return enum_check(PROP, HARNESS, tier, "exploration", RULE, ASSUME, witness=["identity_sets", "client_configurations", "presence_vs_disco_compared"])
+    return enum_check(PROP, HARNESS, tier, "exploration", RULE, ASSUME, witness=["identity_sets", "client_configurations", "presence_vs_disco_compared", "runtime_capability_changes"])
 
 
 def replay(path):
